@@ -255,7 +255,7 @@ def tight_case(rng):
 FLAT = ["collinear3", "collinear_asym", "planar4", "planar4@y", "planar4@z", "collinear_asym@y", "collinear_asym@z"]
 
 
-def add_sideways(rng, case, atol, frac_lo=0.7):
+def add_sideways(rng, case, atol, frac_lo=0.7, factor=(4, 6), pose="random"):
     """a copy of a COLLINEAR / PLANAR pattern with one inner atom pushed 4-6 atol OFF the line / plane: every interatomic
     distance changes only in second order (the pair-distance screen cannot see it), but no rigid motion brings the atom
     within atol. Placed far from the origin (all fractional coordinates >= frac_lo): a tolerance that grows with the
@@ -284,13 +284,13 @@ def add_sideways(rng, case, atol, frac_lo=0.7):
     # the atom to move: neither end of the axis nor (if avoidable) the atom farthest from it (the orientation point)
     off = {i: np.linalg.norm(np.cross(u, P[i] - P[a])) for i in others}
     j = min(others, key=lambda i: off[i]) if len(others) > 1 else others[0]
-    step = nrm * rng.uniform(4, 6) * atol * rng.choice([1, -1])
+    step = nrm * rng.uniform(*factor) * atol * rng.choice([1, -1])
     src = [[Fraction(x).limit_denominator(10 ** 6) for x in p] for p in pat["pos"]]
     src[j] = [Fraction(float(P[j][c] + step[c])).limit_denominator(10 ** 12) for c in range(3)]
     g = None
     for _ in range(40):
         fr = [rng.uniform(frac_lo, 0.97) for _ in range(3)]
-        g = _place(rng, case, src, list(pat["elems"]), frac=fr, perturb=0.0, tries=1)
+        g = _place(rng, case, src, list(pat["elems"]), pose=pose, frac=fr, perturb=0.0, tries=1)
         if g is not None:
             break
     if g is None:
@@ -319,6 +319,22 @@ def far_case(rng):
         plant(rng, case, atol, ncopies=1)
     case["info"]["boundary"] = "far"
     return case, atol, (None, None, None)
+
+
+def shuffle_atoms(rng, case):
+    """the same structure with its atoms listed in ANOTHER ORDER (the atoms of a copy are then neither contiguous nor in
+    pattern order; for symmetric patterns the reported tuples come out in an order that is not the sorted one)"""
+    n = len(case["elems"])
+    if n < 2:
+        return
+    order = list(range(n))
+    rng.shuffle(order)                              # new position k holds old atom order[k]
+    new = {old: k for k, old in enumerate(order)}
+    case["elems"] = [case["elems"][i] for i in order]
+    case["pos"] = [case["pos"][i] for i in order]
+    case["planted"] = [sorted(new[i] for i in grp) for grp in case.get("planted", [])]
+    case["decoys"] = [(kind, [new[i] for i in grp]) for kind, grp in case.get("decoys", [])]
+    case["info"]["shuffled"] = True
 
 
 def unwrap_atoms(rng, case, p_atom=0.6, span=2):
@@ -371,6 +387,10 @@ def random_case(rng):
     for kind, p in kinds:
         if rng.random() < p:
             add_decoy(rng, case, kind, atol)
+    # flat patterns: one inner atom 2.1-2.4 atol off the line / plane, in an axis-aligned pose: beyond atol for that atom,
+    # but small in the ROOT-MEAN-SQUARE over the atoms — only a per-atom test rejects it
+    if case["pattern"]["name"] in FLAT and rng.random() < 0.7:
+        add_sideways(rng, case, atol, frac_lo=0.0, factor=(2.1, 2.4), pose=rng.choice(["identity", "axis90", "axis180"]))
     # copies that exist only under a mis-read cell (tilted / rotated cells; always when the structure comes from ASE)
     for _ in range(2 if route == "ase" else 1):
         if route == "ase" or rng.random() < 0.3:
